@@ -10,7 +10,8 @@
 //           behaviour out of: built-in switch with ALL 2^3 values of its coins in Sign (x the switch off / on with coin 0 /
 //           on with coin 1 during Generate), silent from the start of Sign resp. from its k-th own broadcast on (every k),
 //           wrong value in its k-th own broadcast / k-th private message of Sign (every k; value+1 and value:=q),
-//           outcast (silent during Generate, honest code in Sign)
+//           outcast (silent during Generate, honest code in Sign); wrong value in the k-th own broadcast / private message of
+//           Generate (every k, one faulty party)
 //   dss     the same for DSS (Generate, Sign, Refresh, Sign): built-in switch with coin patterns of bounded weight
 //           (none / all / exactly one of the 24 coins that Sign evaluates) x sub-protocol coins all 0 / all 1 / seeded,
 //           silent, outcast, wrong values / crash at every position (thorough: n=4 every signer, n=5 one signer; quick: a
@@ -115,7 +116,8 @@ static void judge(const Cfg &C, const World &W)
 			}
 			any = true;
 			R.counters["honest_sign_completed"]++;
-XX + str(k) + " returned true at honest party " + str(H[x]) + " but the library's own Verify rejects (" +
+			if (!s.libver)
+				R.viol(rootcause ? kroot : kb + "sign-true-verify-false", "Sign #" + str(k) + " returned true at honest party " + str(H[x]) + " but the library's own Verify rejects (" +
 					s.a + "," + s.b + ") for m=" + C.msgs[k] + " y=" + y, id);
 			sigs[std::make_pair(s.a, s.b)] = H[x];
 		}
@@ -280,6 +282,20 @@ static void family_nts(const Grp *G, bool thorough)
 				C.beh = Beh(), C.beh.kind = SILENT, C.beh.pos = (int)pos;
 				consider(C);
 			}
+			// wrong value in the k-th own broadcast / private message of Generate (one faulty party: n-1; thorough: every single one)
+			if (single && (thorough || C.F[0] == (int)base.n - 1))
+			{
+				for (unsigned pos = 0; pos < W0.nbk[C.F[0]]; pos++)
+				{
+					C.beh = Beh(), C.beh.kind = TAMPER_B, C.beh.kgphase = true, C.beh.pos = (int)pos;
+					consider(C);
+				}
+				for (unsigned pos = 0; pos < W0.nuk[C.F[0]]; pos++)
+				{
+					C.beh = Beh(), C.beh.kind = TAMPER_U, C.beh.kgphase = true, C.beh.pos = (int)pos;
+					consider(C);
+				}
+			}
 			for (int v = 0; v < 2; v++)
 			{
 				if (v == 1 && (!thorough || !single)) continue;
@@ -384,6 +400,25 @@ static void family_dss(const Grp *G, bool thorough)
 			// single signer, and for signer n-1 every 4th broadcast, every 6th private message (the first share of every
 			// sub-protocol), crash at broadcasts 8, 40, 72
 			const bool lastF = single && E.F[0] == (int)n - 1;
+			// wrong value in the k-th own broadcast / private message of Generate (signer n-1; quick: every 4th broadcast plus
+			// broadcast 9, every 6th private message), followed by Sign, Refresh, Sign
+			if (lastF)
+			{
+				Cfg K = two;
+				K.F = Fs[f];
+				for (unsigned pos = 0; pos < W0.nbk[K.F[0]]; pos++)
+				{
+					if (!thorough && !(pos % 4 == 0 || pos == 9)) continue;
+					K.beh = Beh(), K.beh.kind = TAMPER_B, K.beh.kgphase = true, K.beh.pos = (int)pos;
+					consider(K);
+				}
+				for (unsigned pos = 0; pos < W0.nuk[K.F[0]]; pos++)
+				{
+					if (!thorough && pos % 6 != 0) continue;
+					K.beh = Beh(), K.beh.kind = TAMPER_U, K.beh.kgphase = true, K.beh.pos = (int)pos;
+					consider(K);
+				}
+			}
 			for (int v = 0; v < 2; v++)
 			{
 				if (v == 1 && !(tamper_all && lastF)) continue;
